@@ -310,7 +310,7 @@ def b_nan(ctx):
     from contracts.rainflow_bounded import make, run, signals
     from specs.rainflow_spec import TP
     A, N = (3, 5) if ctx.tier == 'quick' else (3, 7)
-    ctx.bound = f"all signals over {{0,1,2}} of length 3..{N} x every placement of 1 or 2 NaN samples strictly inside"
+    ctx.bound = f"all signals over {{0,1,2}} of length 3..{N} x every placement of 1 or 2 NaN samples strictly inside, in one piece and split into two chunks at every position"
     ctx.rule = "non-trivial: cleaned signal has a turning point"
     ctx.exhaustive = True
     import itertools
@@ -345,6 +345,25 @@ def b_nan(ctx):
                                      f"import numpy as np, warnings\nimport pylife.stress.rainflow as rf\ny = np.array({y!r}.replace if False else {[None if v != v else v for v in y]!r}, dtype=float)\n"
                                      f"rec = rf.FullRecorder(); d = rf.{'ThreePointDetector' if det == 'three' else 'FourPointDetector'}(recorder=rec)\nwarnings.simplefilter('ignore'); d.process(y)\n"
                                      "print(rec.collective)\nfor v, g in zip(rec.values_from, rec.index_from): assert y[int(g)] == v, (v, g)\nfor v, g in zip(rec.values_to, rec.index_to): assert y[int(g)] == v, (v, g)\n")
+                            break
+                    # the same signal fed in two chunks, split anywhere (a chunk may end or begin with the NaN): values and indices as in one piece
+                    # (added after seed C03-d dropped NaN samples from the cached tail, shifting the indices of the next chunk)
+                    one = (got, list(map(int, rec.index_from)), list(map(int, rec.index_to)), list(map(int, d.residual_index)))
+                    for cut in range(1, len(y)):
+                        d2, rec2 = make(det)
+                        with warnings.catch_warnings():
+                            warnings.simplefilter('ignore')
+                            d2.process(np.asarray(y[:cut])).process(np.asarray(y[cut:]))
+                        two = ((list(map(float, rec2.values_from)), list(map(float, rec2.values_to)), list(map(float, d2.residuals))),
+                               list(map(int, rec2.index_from)), list(map(int, rec2.index_to)), list(map(int, d2.residual_index)))
+                        ctx.case(len(TP(s)) > 0)
+                        if two != one:
+                            what = 'values' if two[0] != one[0] else 'indices'
+                            ctx.fail(f'C03:nan-chunked-{what}:{det}', f'{det}: {y} split at {cut}: {two} differs from the one-piece run {one}',
+                                     f"import numpy as np, warnings\nimport pylife.stress.rainflow as rf\nnan = float('nan')\ny = np.array({[None if v != v else v for v in y]!r}, dtype=float)\n"
+                                     f"warnings.simplefilter('ignore')\nout = []\nfor chunks in ([y], [y[:{cut}], y[{cut}:]]):\n    rec = rf.FullRecorder(); d = rf.{'ThreePointDetector' if det == 'three' else 'FourPointDetector'}(recorder=rec)\n"
+                                     "    for c in chunks: d.process(c)\n    out.append((list(rec.values_from), list(rec.values_to), list(map(int, rec.index_from)), list(map(int, rec.index_to)), list(map(int, d.residual_index))))\n"
+                                     "print(out[0]); print(out[1]); assert out[0] == out[1]\n")
                             break
     ctx.sample({'signal': [0, 2, float('nan') and 'nan', 1, 2]})
 
